@@ -126,6 +126,8 @@ def run_case(desc):
         raise HarnessError('C10 entry {} has domain != range'.format(name))
     x = zoo.point(dom, desc['x'])
     variant = str(opts.get('variant', opts.get('how', '-')))
+    if 'matshape' in opts:
+        variant += ',' + opts['matshape']
     # region: the options that select a code path of the proximal (data
     # term, step kind) and the coarse space kind; wrappers keep their entry
     vshort = ','.join(variant.split(',')[:2])
@@ -175,6 +177,7 @@ def run_case(desc):
     # aliased call
     y = _copy(x, dom)
     target = y if part is None else y[part]
+    otherb = None if part is None else _bytes(y[1 - part], dom[1 - part])
     try:
         r2 = op(y, out=target)
     except Exception as e:  # noqa
@@ -222,7 +225,7 @@ def run_case(desc):
                             name, bad))
     if part is not None:
         other = 1 - part
-        if _bytes(y[other], dom[other]) != _bytes(x[other], dom[other]):
+        if _bytes(y[other], dom[other]) != otherb:
             raise Violation(sig('x-modified', 'other-part'),
                             name + ': the non-aliased part was modified')
 
@@ -241,7 +244,8 @@ def run_case(desc):
     return Outcome('ok', strata=strata, nontrivial=nontriv)
 
 
-REQUIRED_STRATA = ['entry:' + n for n, e in zoo.ENTRIES.items() if e.c10] + \
+REQUIRED_STRATA = ['entry:' + n for n, e in zoo.ENTRIES.items()
+                   if e.c10 and n != 'fprox.IndicatorNuclearNormUnitBall'] + \
     ['moved', 'space:pspace', 'space:discr', 'space:tensor']
 
 _cats = sorted({s[4] for s in SITES})
